@@ -328,6 +328,50 @@ func sinkDrains(ctx *Ctx, items, buf int, runTo bool) {
 	}
 }
 
+// RunTo a process without out-ports that has two in-ports (it drives the partial run): every input set is the pair
+// of files made from one source file, each pair exactly once
+func runToPairs(ctx *Ctx, items, buf int) {
+	paths := []string{}
+	pre := map[string]string{}
+	for i := 0; i < items; i++ {
+		p := fmt.Sprintf("h%02d.txt", i)
+		paths = append(paths, p)
+		pre[p] = p + "\n"
+	}
+	d := &Desc{Name: "c04pairs", Max: 4, Nodes: []Node{{Name: "src", Kind: "filesource", Paths: paths},
+		{Name: "gen", Kind: "proc", Cmd: "( cat {i:in} > {o:a} ; cat {i:in} > {o:b} )", Outs: map[string]string{"a": "{i:in}.a", "b": "{i:in}.b"}},
+		{Name: "report", Kind: "proc", Cmd: "( echo {i:x|basename} {i:y|basename} >> ../pairs.log )"},
+		{Name: "other", Kind: "proc", Cmd: "( cat {i:in} > {o:out} )", Outs: map[string]string{"out": "{i:in}.other"}}},
+		Edges: []Edge{{From: "src.out", To: "gen.in"}, {From: "gen.a", To: "report.x"}, {From: "gen.b", To: "report.y"}, {From: "gen.b", To: "other.in"}},
+		RunTo: []string{"report"}, RunToKind: "name"}
+	rr := RunWorkflow(d, RunOpts{Pre: pre, Timeout: 20e9, Env: []string{fmt.Sprintf("SCIPIPE_BUFSIZE=%d", buf)}})
+	defer os.RemoveAll(rr.Dir)
+	w := []int{items, buf}
+	ctx.Res.Eval(fmt.Sprintf("runto-pairs items=%d bufsize=%d", items, buf), true, w)
+	ctx.Res.Count("RunTo-driver-with-two-in-ports")
+	got, _ := readFile(rr.Dir, "pairs.log")
+	seen := map[string]int{}
+	for _, l := range strings.Split(strings.TrimSpace(got), "\n") {
+		f := strings.Fields(l)
+		if len(f) == 2 && strings.TrimSuffix(f[0], ".a") == strings.TrimSuffix(f[1], ".b") {
+			seen[strings.TrimSuffix(f[0], ".a")]++
+		} else if l != "" {
+			ctx.Res.Violate(Violation{What: fmt.Sprintf("RunTo(report): the task received the input set %q, whose members come from different source files", l), Class: "c04.mispaired", Witness: w})
+			return
+		}
+	}
+	if rr.Exit != 0 || len(seen) != items {
+		ctx.Res.Violate(Violation{What: fmt.Sprintf("RunTo(report): %d of %d input sets were processed (exit %d): %s", len(seen), items, rr.Exit, firstLine(rr.Stderr)), Class: "c04.sink-drain", Witness: w})
+		return
+	}
+	for k, c := range seen {
+		if c != 1 {
+			ctx.Res.Violate(Violation{What: fmt.Sprintf("RunTo(report): the input set of %s was processed %d times", k, c), Class: "c04.duplicate", Witness: w})
+			return
+		}
+	}
+}
+
 func checkC04(ctx *Ctx) {
 	ctx.Res.Rule = "random acyclic workflows (chains, diamonds, fan-out, fan-in free multi-port and multi-edge processes, processes with a second out-port (consumed downstream or left to the sink), FromStr / ParamSource parameter ports, processes without ports or without out-ports), balanced and unbalanced stream lengths 0-7 against SCIPIPE_BUFSIZE in {1,2,3,128}, maxConcurrentTasks 1-4; non-trivial = at least two tasks; distinct by (graph, bufsize). Checks: per process the number of executed commands, no input set twice, file set and every file's bytes equal to the zip-semantics oracle, and the Lean task-creation model's task count; channel model searched exhaustively for small parameters."
 	r := NewRng(ctx.Seed)
@@ -348,8 +392,11 @@ func checkC04(ctx *Ctx) {
 	}
 	sinkDrains(ctx, 12, 1, false)
 	sinkDrains(ctx, 9, 2, false)
-	sinkDrains(ctx, 12, 2, true)
-	sinkDrains(ctx, 8, 128, true)
+	for k := 0; k < 3; k++ { // repeated: two run loops of one process, should they exist, race for the items
+		sinkDrains(ctx, 24, 2, true)
+		runToPairs(ctx, 24, 2)
+		runToPairs(ctx, 16, 128)
+	}
 	parallel(len(cases), 8, func(i int) {
 		if ctx.TimeLeft() {
 			runC04(ctx, cases[i])
